@@ -45,9 +45,9 @@ func main() {
 		fmt.Fprintln(os.Stderr, "C09: prepare:", err)
 		os.Exit(2)
 	}
-	// Whole scenarios are distributed over the worker processes (22 quick / 25 thorough scenarios on 16 workers, the 8 small ones first:
-	// one start-up per worker, no redundant shallow executions — the machine is shared). Every scenario deepens
-	// its bounds cheapest first until its list is done or the common deadline is reached (exhaustive:false).
+	// Whole scenarios are distributed over worker processes, one scenario per process (33 quick / 38 thorough; no
+	// redundant shallow executions — the machine is shared). Every scenario deepens its bounds cheapest first until
+	// its list is done or the common deadline is reached (exhaustive:false).
 	thorough, worker := false, false
 	for i, a := range os.Args {
 		if (a == "-tier" || a == "--tier") && i+1 < len(os.Args) && os.Args[i+1] == "thorough" {
@@ -76,7 +76,7 @@ func main() {
 	}
 	C := func(cs ...control.C09Client) []control.C09Client { return cs }
 
-	// ---- small sequential histories first (with more scenarios than workers, worker i also gets scenario i+16) ----
+	// ---- small sequential histories first ----
 	// a truncated (TC=1) UDP reply precedes a retirement of the forwarder, by each retirement route: retire-all
 	// (every scenario ends with it), error retirement by a later failed exchange, idle eviction; plain udp
 	// (scripted forwarder handing back ErrDNSTruncated like DoUDP) and tcp+udp (real DoUDP, fallback to TCP)
@@ -161,9 +161,76 @@ func main() {
 	add(&control.C09Params{Name: "L3/3-clients", Layer: 3, Clients: C(cl(q(a, tA, 0x5005)), cl(q(b, tA, 0x5005)), cl(q(c, tA, 0x5005)))},
 		nil, []B{{0, 0}, {1, 0}, {0, 1}, {2, 0}, {1, 1}})
 
+	// ---- connection sets: more dials under way than the pipelined-connection pool may hold --------------------------
+	// a cold-start burst of different questions to one TCP upstream: every query finds the pool empty and dials
+	// (the handshake takes virtual time); the pool fills while the later dials are still under way. Every connection
+	// ever dialed belongs to the forwarder's set: closed exactly once by the time every forwarder has been retired.
+	shallow := []B{{0, 0}, {1, 0}, {0, 1}}
+	burst := 5 * time.Millisecond
+	dn, en := "d.c9.test.", "e.c9.test."
+	three := C(cl(q(a, tA, 0x5005)), cl(q(b, tA, 0x5005)), cl(q(c, tA, 0x5005)))
+	// "fail so that UDP falls back to TCP": three truncated UDP replies, the three fallbacks reach the TCP pool together
+	add(&control.C09Params{Name: "L2/burst-fallback-pool2", Layer: 2, DialLatency: burst, PoolMax: 2, Script: []string{"truncated", "truncated", "truncated"},
+		Clients: C(cl(q(a, tA, 0x4004)), cl(q(b, tA, 0x4004)), cl(q(c, tA, 0x4004)))},
+		shallow, []B{{0, 0}, {1, 0}, {0, 1}, {2, 0}})
+	// the burst while a configuration reload retires the forwarder: the set is closed after its last in-flight query
+	add(&control.C09Params{Name: "L3/burst-3-pool2-retire", Layer: 3, DialLatency: burst, PoolMax: 2, Background: "retire", Behaviours: []string{"ok", "close", "silent"}, Clients: three},
+		shallow, []B{{0, 0}, {1, 0}, {0, 1}, {2, 0}, {1, 1}})
+	// pool capacity lowered to 2, three clients, the three dials complete in every order
+	add(&control.C09Params{Name: "L3/burst-3-pool2", Layer: 3, DialLatency: burst, PoolMax: 2, Clients: three},
+		shallow, []B{{0, 0}, {1, 0}, {0, 1}, {2, 0}, {1, 1}})
+	// production pool capacity (4), five clients, the dials complete in the order they were started
+	add(&control.C09Params{Name: "L3/burst-5", Layer: 3, DialLatency: burst, DialStagger: time.Microsecond, MaxSteps: 8000,
+		Clients: C(cl(q(a, tA, 0x5005)), cl(q(b, tA, 0x5005)), cl(q(c, tA, 0x5005)), cl(q(dn, tA, 0x5005)), cl(q(en, tA, 0x5005)))},
+		[]B{{0, 0}, {1, 0}}, []B{{0, 0}, {1, 0}, {0, 1}, {1, 1}})
+	// without a dial latency the same over-subscription needs two stalled goroutines (thorough tier)
+	add(&control.C09Params{Name: "L3/burst-3-pool2/instant-dial", Layer: 3, PoolMax: 2, Behaviours: []string{"ok"}, Clients: three},
+		nil, []B{{0, 0}, {1, 0}, {2, 0}})
+
+	// ---- forwarder generations: a retired forwarder still draining while its replacement is already cached ----------
+	// Three different questions, one client asks two of them (a then c), the other one b: when the exchange for a fails
+	// the forwarder is retired under b's query, question c creates the replacement under the same cache key, and then
+	// the query still running on the retired forwarder ends (fails, mismatches, times out) too. Whatever that late
+	// completion — or a racing reload / idle eviction that picked the old forwarder — does must be aimed at ITS
+	// forwarder: the replacement stays in service and is closed (once) by retire-all.
+	gen := C(cl(q(a, tA, 0x9101), q(c, tA, 0x9103)), cl(q(b, tA, 0x9202)))
+	// idle eviction as the racing route: the evictor has picked the idle forwarder (created by a), question b fails on
+	// it (error retirement) and question c installs the replacement before the evictor acts
+	add(&control.C09Params{Name: "L1/gen-evict/after-error", Layer: 1, Background: "evict", Script: []string{"ok", "error"}, Behaviours: []string{"ok", "error", "foreign-name", "slow"},
+		Clients: C(cl(q(a, tA, 0x9101)), cl(q(b, tA, 0x9202), q(c, tA, 0x9203)))},
+		[]B{{0, 0}, {1, 0}, {0, 1}, {1, 1}}, []B{{0, 0}, {1, 0}, {0, 1}, {2, 0}, {1, 1}, {0, 2}, {2, 1}})
+	// real DoUDP (tcp+udp upstream): the retired UDP forwarder owns pooled sockets, the replacement dials its own;
+	// question a gets no reply at all (its exchange ends at the read deadline); one transaction ID throughout
+	gen2 := C(cl(q(a, tA, 0x4004), q(c, tA, 0x4004)), cl(q(b, tA, 0x4004)))
+	add(&control.C09Params{Name: "L2/gen-overlap/after-timeout", Layer: 2, Script: []string{"nothing"}, Clients: gen2},
+		shallow, []B{{0, 0}, {1, 0}, {0, 1}, {2, 0}, {1, 1}})
+	add(&control.C09Params{Name: "L2/gen-overlap", Layer: 2, Clients: gen2},
+		nil, []B{{0, 0}, {1, 0}, {0, 1}, {0, 2}})
+
+	// the same with a configuration reload (retire-all) in the evictor's place
+	add(&control.C09Params{Name: "L1/gen-retire-last/after-error", Layer: 1, Background: "retire-last", Script: []string{"ok", "error"}, Behaviours: []string{"ok", "error", "foreign-name", "slow"},
+		Clients: C(cl(q(a, tA, 0x9101)), cl(q(b, tA, 0x9202), q(c, tA, 0x9203)))},
+		[]B{{0, 0}, {1, 0}, {0, 1}, {1, 1}}, []B{{0, 0}, {1, 0}, {0, 1}, {2, 0}, {1, 1}, {0, 2}, {2, 1}})
+	// every upstream behaviour free (the overlap needs two failures: deviation bound 2 is reached in the thorough tier)
+	add(&control.C09Params{Name: "L1/gen-overlap", Layer: 1, Clients: gen},
+		shallow, []B{{0, 0}, {1, 0}, {0, 1}, {2, 0}, {1, 1}, {0, 2}, {2, 1}, {1, 2}})
+	// the first exchange (question a) is forced to end in a retirement, by each route a reply can take there: a failed
+	// exchange, an answer to another question (mismatch). Everything after it is enumerated.
+	add(&control.C09Params{Name: "L1/gen-overlap/after-error", Layer: 1, Script: []string{"error"}, Clients: gen},
+		shallow, []B{{0, 0}, {1, 0}, {0, 1}, {2, 0}, {1, 1}, {0, 2}})
+	add(&control.C09Params{Name: "L1/gen-overlap/after-mismatch", Layer: 1, Script: []string{"foreign-name"}, Clients: gen},
+		shallow, []B{{0, 0}, {1, 0}, {0, 1}, {2, 0}, {1, 1}, {0, 2}})
+	// a configuration reload (retire-all) arriving at the instant the first exchanges of both clients complete
+	add(&control.C09Params{Name: "L1/gen-retire/after-error", Layer: 1, Background: "retire-late", Script: []string{"error"}, Behaviours: []string{"ok", "error", "foreign-name", "slow"}, Clients: gen},
+		shallow, []B{{0, 0}, {1, 0}, {0, 1}, {2, 0}, {1, 1}, {0, 2}})
+
 	p := &vdrive.Plan{
-		Scenarios:      scs,
-		ManyScenarios:  true,
+		Scenarios:     scs,
+		ManyScenarios: true,
+		// one worker process per scenario (GOMAXPROCS=1 each; the OS shares the 16 cores among them): every scenario
+		// starts at once and deepens its own bound list until it is done or the common deadline is reached, so a
+		// long list never keeps another scenario from running at all
+		Shards:         len(scs),
 		QuickBounds:    []B{{0, 0}, {1, 1}},
 		ThoroughBounds: []B{{0, 0}, {1, 1}, {2, 1}},
 		PerScenario:    per,
@@ -179,6 +246,9 @@ func main() {
 			r.Assume("cache hits are served from the pre-packed bytes (live since 822787e); the re-pack slow path (entry older than 15s, still fresh) is reached in L1/chain-aging only; optimistic (stale) serving is off")
 			r.Assume("every scenario ends with retire-all (ResetDnsForwarders) + quiescence before the controller is closed: from then on every forwarder ever created must have seen Close exactly once")
 			r.Assume("layers 2/3: simulated sockets (simnet), direct dialer profile (no proxy): DoH/DoQ/DoTLS transports are not executed")
+			r.Assume("burst scenarios: an upstream TCP dial takes 5ms of virtual time (elsewhere it completes within the caller's step); in the *-pool2 scenarios the capacity of the real DoTCP connPool is lowered from 4 to 2 by the harness (field connPool.maxConns, set before the first query) so that three clients over-subscribe it; L3/burst-5 runs the production capacity with five clients whose dials complete in the order they were started (1us apart; the *-pool2 scenarios take every completion order)")
+			r.Assume("once every forwarder has been retired and no query is in flight, every upstream UDP socket and TCP connection ever dialed must have been closed (checked before DnsController.Close, which would sweep the forwarder cache again)")
+			r.Assume("generation scenarios (gen-*): the first exchange(s) are scripted to end in an error retirement where named /after-*; L1/gen-overlap and L2/gen-overlap leave every exchange free and need deviation bound 2 for the overlap (thorough tier)")
 		},
 	}
 	vdrive.Main("C09", p)
